@@ -158,9 +158,25 @@ def check_positions(rng, quick, realistic, stats):
         mq = [w.split(':') for w in mo[2 * i + 1].split()]
         doc = k6.Doc(t)
         bl = len(doc.bytes)
+        # direct oracle, independent of the model (the clause C20_position_to_offset_in_addressed_line /
+        # _missing_line_is_document_end proves for the model): the offset lies inside the addressed line, its
+        # terminating newline excluded, or is the document end when the line does not exist
+        lstarts = [0] + [k + 1 for k, ch in enumerate(doc.bytes) if ch == 0x0A]
         for p, (a, b), real in zip(ps, mp, impl[i]['p']):
             stats['pos_p2o_pairs'] += 1
             stats['pos_p2o_' + (doc.pos_class(p[0], p[1]) or 'exact')] += 1
+            if isinstance(real, int):
+                if p[0] < len(lstarts):
+                    lo = lstarts[p[0]]
+                    hi = (lstarts[p[0] + 1] - 1) if p[0] + 1 < len(lstarts) else bl
+                    in_line = lo <= real <= hi
+                else:
+                    in_line = real == bl
+                if not in_line:
+                    bad.append({'kind': 'position_to_offset_outside_addressed_line', 'text': t, 'position': list(p), 'impl': real,
+                                'model': a, 'property_fails': True,
+                                'what': 'a request at this position is answered from another line (or from behind the document)'})
+                    continue
             if not (a == b == real):
                 bad.append({'kind': 'position_to_offset', 'text': t, 'position': list(p), 'impl': real, 'model': a, 'model_codespan_literal': b})
             elif not (real <= bl and doc.byte_to_pos(real) is not None):
